@@ -72,13 +72,16 @@ def patch_time(loop: VLoop, epoch: float = 1_700_000_000.0):
         _time.time, _time.monotonic = real
 
 
-def run(coro_fn, *args, start: float = 1000.0, patch_clock: bool = False):
-    """Run `await coro_fn(loop, *args)` on a fresh VLoop and close it."""
+def run(coro_fn, *args, start: float = 1000.0, patch_clock: bool = False, epoch: float = 1_700_000_000.0):
+    """Run `await coro_fn(loop, *args)` on a fresh VLoop and close it.
+
+    `epoch` is the offset of the patched time.time() (use 0.0 with dyadic delays when the code under
+    test subtracts wall-clock readings and exact virtual instants matter)."""
     loop = VLoop(start)
     asyncio.set_event_loop(loop)
     try:
         if patch_clock:
-            with patch_time(loop):
+            with patch_time(loop, epoch):
                 return loop.run_until_complete(coro_fn(loop, *args))
         return loop.run_until_complete(coro_fn(loop, *args))
     finally:
